@@ -18,7 +18,7 @@ func init() {
 	register(&Prop{
 		ID:       "C07",
 		Category: "fault_enumeration",
-		Rule: "corpus of 22 short well-formed gzip/zlib containers (every header flag combination incl. FHCRC, stored/fixed/dynamic/Huffman-only payloads, empty payload, two members, dictionaries) and 2 of ~15 KB; for each short one EVERY single-bit flip, EVERY byte position x 16 (quick) / all 255 (thorough) other values, EVERY truncation point and every 2-bit flip inside the trailer; for the long ones flips and substitutions at a ladder of positions; x Read policy {1 MiB, 4096, 7, 1}; " +
+		Rule: "corpus of 22 short well-formed gzip/zlib containers (every header flag combination incl. FHCRC, stored/fixed/dynamic/Huffman-only payloads, empty payload, two members, dictionaries) and 2 of ~15 KB; for each short one EVERY single-bit flip, EVERY byte position x 16 (quick) / all 255 (thorough) other values, EVERY truncation point, every 2-bit flip inside the trailer, and (thorough) every pair of bit flips at most 16 bits apart anywhere; for the long ones flips and substitutions at a ladder of positions; x Read policy {1 MiB, 4096, 7, 1}; " +
 			"oracle: io.EOF only if the bytes handed out for each member match the CRC-32 and length (Adler-32) stored in the trailer of the MUTATED input, located by the harness's own container parser and reference inflater; otherwise the error is a checksum, header, corrupt-input or unexpected-EOF error; whatever is handed out is a prefix of what the reference decodes; a cut inside a member ends in io.ErrUnexpectedEOF; non-trivial = the mutation changed the input; distinct = distinct (container, mutation, policy)",
 		Assumptions: []string{"the harness's gzip/zlib framing parser and the reference inflater locate the trailer"},
 		Quick:       TierSpec{MaxDev: -1, Shards: 4, ShardDepth: 3, BudgetS: 150},
@@ -109,7 +109,11 @@ func c07Harness(cfg *Cfg) func(x *mc.Exec) {
 		if c.kind.Kind == "zlib" {
 			tl = 4
 		}
-		mutKind := x.Choose(4, "mutation")
+		nm := 4
+		if cfg.Thorough {
+			nm = 5
+		}
+		mutKind := x.Choose(nm, "mutation")
 		in := append([]byte{}, c.bytes...)
 		var mname string
 		cutInside := false
@@ -154,6 +158,20 @@ func c07Harness(cfg *Cfg) func(x *mc.Exec) {
 			if c.kind.Kind == "zlib" && p == 0 {
 				cutInside = true
 			}
+		case 4:
+			// thorough: every pair of bit flips at most 16 bits apart, anywhere in a short container
+			if long {
+				return
+			}
+			a := x.Choose(n*8-1, "bitA")
+			span := 16
+			if n*8-a-1 < span {
+				span = n*8 - a - 1
+			}
+			b := a + 1 + x.Choose(span, "bitB-offset")
+			in[a/8] ^= 1 << uint(a%8)
+			in[b/8] ^= 1 << uint(b%8)
+			mname = fmt.Sprintf("bits %d and %d flipped", a, b)
 		case 3:
 			// two bit flips inside the trailer
 			a := x.Choose(tl*8-1, "bitA")
